@@ -18,6 +18,8 @@ package main
 //	   message fields or arguments of exported helpers whose length is not established (c19_len.go)
 //	D7 channel closed by a goroutine other than the one that sends on it, or closed twice
 //	D8 type assertion without comma-ok whose operand can hold a type that does not fit
+//	D9 index into a fixed-size array with a variable index that is not bounded by the array
+//	   length (copy loop over untrusted bytes) (c19_len.go)
 //	   (c19_chan.go)
 //
 // D2-D4 share one nil-flow engine: sources (classify), guards (dominating nil / error tests),
@@ -44,7 +46,7 @@ func init() {
 	register(&PropertyDef{
 		ID:    "C19",
 		Title: "No request can crash the service",
-		Explanation: "Decides, from the type-checked SSA of /repo, eight classes of request-triggered crashes in module code behind the RPC handlers (D1-D4, D7 and D8 on the handler paths, D5 in the exported helpers of pkg/cryptoutil, D6 at every module call of a length-checking library function, where only protobuf message fields (request messages included), arguments of the exported helpers and whole-stream reads count as untrusted). Handlers are the methods of the module types implementing protocoltypes.ProtocolServiceServer and outofstoremessagetypes.OutOfStoreMessageServiceServer; besides the handlers, the entry points are the callbacks orbit-db invokes while a handler is served and which the module call graph cannot see (functions with the signature of iface.StoreConstructor: called when a handler opens the stores of a group; methods of module types implementing iface.StoreIndex: called when a handler appends to or reads a store), each listed in the notes; reachable code is the closure over static calls, interface calls resolved to module implementations, closures, function values taken in reachable code and functions stored in package-level variables that reachable code reads. " +
+		Explanation: "Decides, from the type-checked SSA of /repo, nine classes of request-triggered crashes in module code behind the RPC handlers (D1-D4, D7 and D8 on the handler paths, D5 in the exported helpers of pkg/cryptoutil, D6 at every module call of a length-checking library function and D9 at every variable index into a fixed-size array, where only protobuf message fields (request messages included), arguments of the exported helpers and whole-stream reads count as untrusted). Handlers are the methods of the module types implementing protocoltypes.ProtocolServiceServer and outofstoremessagetypes.OutOfStoreMessageServiceServer; besides the handlers, the entry points are the callbacks orbit-db invokes while a handler is served and which the module call graph cannot see (functions with the signature of iface.StoreConstructor: called when a handler opens the stores of a group; methods of module types implementing iface.StoreIndex: called when a handler appends to or reads a store), each listed in the notes; reachable code is the closure over static calls, interface calls resolved to module implementations, closures, function values taken in reachable code and functions stored in package-level variables that reachable code reads. " +
 			"(D1) every panic statement and every call of a process-terminating library function (os.Exit, log.Fatal*/Panic*, zap Fatal/Panic) in reachable code is one obligation; it is a violation when a branch condition that decides whether it executes derives by value flow from a handler's request parameter (operands to results, call arguments to results and to the parameters of module callees, stored values and out-parameters to local cells; contexts excluded), or when it is unconditional up to a handler. The panics go/ssa synthesises for select dispatch are not source panics and are skipped. " +
 			"(D2) the pointer fields of a handler receiver type that a reachable function sets to nil are nullable (today: the account group context, cleared on deactivation). Every dereference of a value read from such a field, or returned by a function that may return it (accessor summaries), must be dominated by the non-nil side of a nil test of that same value; a test of another read of the field, or an assignment of a non-nil value to it, counts only while a lock of the owning struct is held from there to the use. " +
 			"(D3) pointer-to-message fields of a handler's request parameter are nullable (proto3 leaves them nil when absent): a field access, or passing the value to a module function whose summary says it dereferences that parameter on a path without a nil test (generated getters come out nil-safe from their bodies), must be dominated by a nil test of the value or of another read of the same request field. " +
@@ -53,6 +55,7 @@ func init() {
 			"(D6) every module call of a library function that panics when a byte-slice argument has the wrong length (table read off the module's actual callees: ed25519.NewKeyFromSeed 32, ed25519.Sign/PrivateKey.Sign 64, ed25519.Verify 32, PrivateKey.Seed/Public >= 32, cipher.NewCTR/CBC/CFB/OFB IV == block size, AEAD Seal/Open nonce == nonce size, binary.ByteOrder (Put)UintN >= N/8, a []byte key boxed into aead/ecdh ComputeSecret 32) and every slice-to-array conversion is one obligation. The required length must hold on every path: slice of a fixed-size array or with constant bounds, make with a constant (or, for run-time sizes, [:n] / make(n)), result of a module function whose returns all have it, parameter for which every static module caller has it, X25519 shared secret, io.ReadAll(io.LimitReader(hkdf, K)) on the nil-error side (an HKDF stream delivers 255 hash lengths before failing, so a nil error means exactly K bytes), or a comparison of len of the same value (or of another read of the same access path) with a constant whose outcome on the dominating edge gives the bound: a comparison with the wrong constant does not count. A field of a module struct has the meet of the facts of every value stored into it anywhere in the module (a length buffer made with a constant size in every constructor), unless its address escapes. If the required length does not hold: when the known length excludes it (a seed read with the wrong constant limit) the site is a violation whatever the bytes are; otherwise it is a violation when the backward slice of the argument (through slicing, conversions, phis, module callees and the arguments of module callers) reaches a field of a protobuf message (every request message is one), the argument of an exported pkg/cryptoutil function (module callers, when there are any, count for establishing the length, not for trusting the bytes) or a whole-stream read (io.ReadAll, os.ReadFile); otherwise it is listed as an internal buffer. This classification is local to the argument's definition: it does not use D1's request-influence fixpoint, so an edit elsewhere cannot change it. For run-time sizes (block size, nonce size) an equality test against any run-time value or any constant length is accepted as written. " +
 			"(D7) for every close(ch) in reachable code whose channel can be traced to make(chan) instructions (through local variables, variables captured by closures, phis and the arguments of static calls): every send on the same channel objects must run on the same goroutine as the close, and no second close may follow it. A function runs on goroutine go:<f> when it is the target of a go statement, otherwise on the goroutines of its callers (a closure that is called, deferred or handed to a callee runs on its creator's goroutine). A close in the creating function on a path that shares no CFG path with the go statement that starts the sender (early error return before the goroutine is started) is accepted; a deferred close counts from its defer statement. Closes of channels held in struct fields, maps or returned by calls are listed in the notes as not decided; synchronisation that orders a foreign close after the last send (WaitGroup) is not recognised and would be reported. " +
 			"(D8) every type assertion without comma-ok in reachable code is one obligation. It is accepted when the operand's static interface type already satisfies the asserted interface, or when a successful comma-ok assertion of the same value to the same (or an implying) type dominates it. Otherwise the set of dynamic types of the operand is derived where the module's code determines it: values boxed in the module, results of module functions, phis and captured variables, values sent on a channel created in reachable code, the event types an event-bus subscription was created for (Subscribe(new(T)) or a literal list; libp2p delivers only those), proto.Clone of such a value, and a field of the entries of a package-level map literal that is assigned nowhere else (the event-type table); every member of the set must be identical to, or implement, the asserted type, and the report names the ones that do not. Where the set cannot be derived (results of dependencies such as BaseStore.Index, container/list and container/heap elements) the site is listed as not decided, never as a violation. " +
+			"(D9) every index expression into a fixed-size array whose index is not a constant (module-wide; one site today, the copy loop of Group.GetLinkKeyArray) is one obligation: an exclusive upper bound of the index must hold on every path and be at most the array length. Bounds come from a dominating comparison of the index with a constant, with the length of an array, or with len of a slice whose length facts (as in D6) give an upper bound (the range loop over a slice tested == N or <= N), from a constant mask, or from an 8-bit unsigned index type. A bound above the array length is a violation; when the index only runs below the length of a slice without an upper bound, the site is a violation if that slice is untrusted in the sense of D6 (protobuf message field, argument of an exported helper, whole-stream read), as it is when the index is computed from an element of such bytes; otherwise it is listed as not decided. Index expressions into slices are not covered outside D5. " +
 			"Not decided: panics inside dependencies (orbit-db, libp2p, protobuf, grpc) and in callbacks of dependencies other than the two kinds listed above (libp2p stream handlers, event-bus subscribers, access-controller constructors); index, conversion, type-assertion, nil-map-write and division panics not rooted in the sources above; nil values that travel through maps, channels, struct literals or captured variables; whether the length comparison of D5 is the right one (only its presence and position); an error variable that lives in a captured cell and is tested after a merge; data races other than the lock condition of D2; resource exhaustion and dead-locks. The absence of a recovery interceptor is noted, not required.",
 		Trusted:     []string{"golang.org/x/tools go/packages+go/ssa (v0.29.0)", "go/types", "gRPC hands a non-nil request message to every handler", "generated protobuf getters are nil-safe (verified from their bodies by the same summaries)"},
 		Assumptions: []string{"dependencies behave as documented; only module code is analysed", "handlers are only entered through the generated server interfaces"},
@@ -68,9 +71,10 @@ func init() {
 		// without comma-ok in reachable code (7 decided, 11 on values produced by dependencies); these two floors are set below today's
 		// counts because removing a close or rewriting an assertion in the two-value form is a
 		// harmless change that lowers them.
-		Floors: map[string]int{"D1": 2, "D2": 23, "D3": 2, "D4": 100, "D5": 2, "D6": 14, "D7": 8, "D8": 12},
+		Floors: map[string]int{"D1": 2, "D2": 23, "D3": 2, "D4": 100, "D5": 2, "D6": 14, "D7": 8, "D8": 12, "D9": 1},
 		Borrows: []Borrow{
 			{From: "C13", Rules: []string{"D4"}, Why: "the since/until identifiers of GroupMetadataList / GroupMessageList come from the request; the range selection is evaluated there for every position of both identifiers, and an index outside the entry slice (off-by-one at either end) is a run-time panic in the handler's goroutine"},
+			{From: "C16", Rules: []string{"D9"}, Why: "releasing a mutex that is not held is a fatal runtime error that no interceptor can recover: a second Unlock on the path a handler takes when its client gives up (stream cancelled) takes the process down"},
 		},
 		Run: runC19,
 	})
